@@ -1,4 +1,4 @@
-import Mimium.Model.Stage
+import Mimium.Model.StageCore
 import Mimium.Model.CoreIO
 /-!
 Reader of staged programs (protocol with `tools/gen/stagegen.py`), canonical printer of trees (same text as
@@ -160,112 +160,6 @@ partial def canon : Ex → String
   | .bracket e => s!"(bracket {canon e})"
   | .escape e => s!"(escape {canon e})"
   | .macroExpand f args => "(" ++ sp ("macro" :: canon f :: args.map canon) ++ ")"
-
-/-! ## back to the core language -/
-
-def opOf : String → Option Core.BinOp
-  | "add" => some .add | "sub" => some .sub | "mult" => some .mul | "div" => some .div
-  | "lt" => some .lt | "le" => some .le | "gt" => some .gt | "ge" => some .ge
-  | "eq" => some .eq | "ne" => some .ne | "and" => some .and | "or" => some .or
-  | _ => none
-
-/-- context of `toCore`: names of top-level functions, local names in scope, name of the current `self` variable -/
-structure TC where
-  fns : List String
-  locals : List String
-  feed : Option String
-
-abbrev TM := StateT Nat (Except String)
-
-def freshSite : TM Nat := do
-  let n ← get
-  set (n + 1)
-  return n + 1
-
-partial def toCoreE (c : TC) : Ex → TM Core.Expr
-  | .flt b => pure (.lit b)
-  | .now => pure .now
-  | .sr => pure .samplerate
-  | .var x => pure (if c.feed == some x && !c.locals.contains x then .self else .var x)
-  | .block e => toCoreE c e
-  | .tup es => do pure (.tup (← es.mapM (toCoreE c)))
-  | .proj e i => do pure (.proj (← toCoreE c e) i)
-  | .ite a t e => do pure (.ite (← toCoreE c a) (← toCoreE c t) (← toCoreE c e))
-  | .letE x v b => do
-      let v' ← toCoreE c v
-      pure (.letE x v' (← toCoreE { c with locals := x :: c.locals } b))
-  | .letT xs v b => do
-      let v' ← toCoreE c v
-      pure (.letTup xs v' (← toCoreE { c with locals := xs ++ c.locals } b))
-  | .thenE (.assign (.var x) e) r => do
-      let e' ← toCoreE c e
-      pure (.assign x e' (← toCoreE c r))
-  | .lam ps (.feed _ _) => throw "stateful closure (outside the core fragment)"
-  | .lam ps b => do pure (.lam ps (← toCoreE { c with locals := ps ++ c.locals } b))
-  | .app (.var f) args => do
-      let shadowed := c.locals.contains f
-      match shadowed, f, args with
-      | false, "mem", [e] => do
-          let e' ← toCoreE c e
-          pure (.mem e' (← freshSite))
-      | false, "delay", [.flt n, e, t] => do
-          let e' ← toCoreE c e
-          let t' ← toCoreE c t
-          pure (.delay (Float.ofBits n).toUInt64.toNat e' t' (← freshSite))
-      | false, "sqrt", [e] => do pure (.un .sqrt (← toCoreE c e))
-      | false, "abs", [e] => do pure (.un .abs (← toCoreE c e))
-      | _, _, _ =>
-        match (if shadowed then none else opOf f), args with
-        | some op, [a, b] => do
-            let a' ← toCoreE c a
-            pure (.bin op a' (← toCoreE c b))
-        | _, _ =>
-          if !shadowed && c.fns.contains f then do
-            let args' ← args.mapM (toCoreE c)
-            pure (.call f args' (← freshSite))
-          else do
-            pure (.app (.var f) (← args.mapM (toCoreE c)))
-  | .app f args => do
-      let f' ← toCoreE c f
-      pure (.app f' (← args.mapM (toCoreE c)))
-  | e => throw s!"not a core expression: {canon e}"
-
-/-- top-level chain `let g = e … let f = |ps| body … ()` → globals and functions -/
-partial def toCoreChain (shapes : List (String × Option Shape)) (fns : List String) :
-    Ex → List (String × Core.Expr) → List Core.FnDecl → Except String (List (String × Core.Expr) × List Core.FnDecl)
-  | .tup [], gs, fs => .ok (gs.reverse, fs.reverse)
-  | .letE name (.lam ps body) rest, gs, fs => toFn name ps body rest gs fs
-  | .letrec name (.lam ps body) rest, gs, fs => toFn name ps body rest gs fs
-  | .letE x v rest, gs, fs =>
-      match (toCoreE ⟨fns, [], none⟩ v).run 0 with
-      | .ok (v', _) => toCoreChain shapes fns rest ((x, v') :: gs) fs
-      | .error m => .error m
-  | e, _, _ => .error s!"not a top-level definition: {canon e}"
-where
-  toFn (name : String) (ps : List String) (body rest : Ex) (gs : List (String × Core.Expr)) (fs : List Core.FnDecl) :=
-    let (feed, b) := match body with
-      | .feed x b => (some x, b)
-      | b => (none, b)
-    match (toCoreE ⟨fns, ps, feed⟩ b).run 0 with
-    | .error m => .error m
-    | .ok (b', _) =>
-      let shape := if feed.isSome then (shapes.lookup name).join else none
-      if feed.isSome && shape.isNone then .error s!"no self shape for {name}" else
-      toCoreChain shapes fns rest gs (⟨name, ps, b', shape⟩ :: fs)
-
-partial def topNames : Ex → List String
-  | .letE name (.lam _ _) rest => name :: topNames rest
-  | .letrec name (.lam _ _) rest => name :: topNames rest
-  | .letE _ _ rest => topNames rest
-  | _ => []
-
-def toCoreProg (shapes : List (String × Option Shape)) (e : Ex) : Except String Core.Prog :=
-  match toCoreChain shapes (topNames e) e [] [] with
-  | .error m => .error m
-  | .ok (gs, fs) =>
-    match fs.find? (·.name == "dsp") with
-    | some d => .ok ⟨gs, fs.filter (·.name != "dsp"), d⟩
-    | none => .error "no dsp"
 
 /-- the whole model pipeline on one program: expanded tree (canonical text) and the outputs of its evaluation -/
 def runStaged (p : SProg) (times : Nat) (inputs : List (List UInt64)) : String × String × String :=
